@@ -682,9 +682,17 @@ static Type *type_suffix(Token **rest, Token *tok, Type *ty) {
 static Type *pointers(Token **rest, Token *tok, Type *ty) {
   while (consume(&tok, tok, "*")) {
     ty = pointer_to(ty);
-    while (equal(tok, "const") || equal(tok, "volatile") || equal(tok, "restrict") ||
-           equal(tok, "__restrict") || equal(tok, "__restrict__"))
+
+    // type-qualifier-list. Only _Atomic has an effect; `_Atomic(` would
+    // be a type specifier, which cannot follow a `*`.
+    for (;;) {
+      if (equal(tok, "_Atomic") && !equal(tok->next, "("))
+        ty->is_atomic = true;
+      else if (!equal(tok, "const") && !equal(tok, "volatile") && !equal(tok, "restrict") &&
+               !equal(tok, "__restrict") && !equal(tok, "__restrict__"))
+        break;
       tok = tok->next;
+    }
   }
   *rest = tok;
   return ty;
